@@ -9,7 +9,7 @@ KINDS = ("DDM", "EDDM", "STEPD")
 
 def replayer(traces):
     return lambda i: {"driver": "error_based", "kind": traces[i]["kind"], "params": traces[i]["params"], "seq": traces[i]["seq"],
-                      "resets": traces[i]["resets"], "bads": traces[i]["bads"], "enc": traces[i].get("enc", "")}
+                      "resets": traces[i]["resets"], "bads": traces[i]["bads"], "enc": traces[i].get("enc", ""), "fold": traces[i].get("fold", False)}
 
 
 def run(ctx):
@@ -44,6 +44,16 @@ def run(ctx):
                                tuple(sorted(ctx.rng.sample(range(1, ln), 3))), tuple(sorted(ctx.rng.sample(range(1, ln), 3)))) for i in range(nt)])
         for i, t in enumerate(traces):
             t["enc"] = encs[i][0]
+        if k == "STEPD":
+            # epochs of a hundred thousand (and more) correct predictions, then the first errors: the overall accuracy is within 1e-5 of one, not one - the
+            # two-proportion test applies as it does anywhere else.  The quiet stretch is folded into one event (STEPD.Quiet, checked against Step in MC_STEPD)
+            for j in range(2 if q else 6):
+                w = ctx.rng.choice([30, 50, 100])
+                early = ([0] * ctx.rng.randint(40, 90) + [1]) if j % 2 == 1 else []        # (with an early error the stretch is long enough for TWO errors to stay below 1e-5)
+                seq = early + [0] * ((100000 if not early else 230000) + 10000 * j) + [1, 0, 0, 1, 1] + [0] * 40
+                t = D.run(k, {"window_size": w, "alpha_warning": 0.05, "alpha_drift": 0.003}, seq, fold=True)
+                t["enc"], t["fold"] = "", True
+                traces.append(t)
         ctx.validate(k, traces, "%s long random streams" % k, sabotage=D.sabotage, replay=replayer(traces),
                      nontrivial=lambda t: sum(1 for e in t["ev"] if e["state"] == "drift") >= 2)
     ctx.assumptions += ["standard normal quantiles z(1-alpha) for STEPD come from scipy.stats.norm.ppf (trusted table)",
@@ -57,6 +67,6 @@ def replay(ctx, bundle):
     if r.get("enc"):
         from .c16 import encodings
         enc = encodings(random.Random(0))[r["enc"]]
-    t = D.run(r["kind"], r["params"], r["seq"], enc=enc, resets=tuple(r.get("resets", ())), bads=tuple(r.get("bads", ())))
+    t = D.run(r["kind"], r["params"], r["seq"], enc=enc, resets=tuple(r.get("resets", ())), bads=tuple(r.get("bads", ())), fold=bool(r.get("fold")))
     ctx.validate(r["kind"], [t], "replay", replay=lambda i: r)
     return ctx.finish()
